@@ -136,6 +136,7 @@ func (e *Engine) ParseTemplateAndCache(source []byte, path string, line int) (*T
 	if err != nil {
 		return t, err
 	}
-	e.cfg.Cache[path] = source
+	// keep a copy: the caller may reuse its buffer for the next file
+	e.cfg.Cache[path] = append([]byte(nil), source...)
 	return t, err
 }
